@@ -230,13 +230,15 @@ Proof. exact w_literals. Qed.
 Print Assumptions c10_literal_roundtrip_refuted.
 
 (** ParseFrugal (model of parser.go:49-110 and validate): a top-level constant whose value names an
-    enum member is rejected, while the same reference is accepted as a field default (C10-F21) *)
-Theorem c10_enum_ref_constant_refuted :
-  is_ferr (parse_program [(main_frugal, cat [idl "enum Color { RED, GREEN }"; idl "const Color c = Color.GREEN"])] main_frugal) = true
+    enum member is accepted, like the same reference as a field default (was rejected on the pinned
+    tree, C10-F21; repaired in validateConstant), and circular typedefs are rejected *)
+Theorem c10_enum_ref_constant_accepted :
+  is_fok (parse_program [(main_frugal, cat [idl "enum Color { RED, GREEN }"; idl "const Color c = Color.GREEN"])] main_frugal) = true
   /\ is_fok (parse_program [(main_frugal, cat [idl "enum Color { RED, GREEN }";
-                                                idl "struct S { 1: Color c = Color.GREEN }"])] main_frugal) = true.
+                                                idl "struct S { 1: Color c = Color.GREEN }"])] main_frugal) = true
+  /\ is_ferr (parse_program [(main_frugal, cat [idl "typedef B A"; idl "typedef A B"])] main_frugal) = true.
 Proof. exact w_enum_ref_constant. Qed.
-Print Assumptions c10_enum_ref_constant_refuted.
+Print Assumptions c10_enum_ref_constant_accepted.
 
 (** * Non-vacuity *)
 Example c10_enum_numbering_nonvacuous :
